@@ -15,10 +15,11 @@ LEVEL = ('decides the mechanisms the statement names: the core guard has a Drop 
          ' a usable root state. is_mutually_exclusive_with answers true only for two predicates on one'
          ' variable that no value satisfies together and negation is exact (A12/A13, decided on a '
          "small integer window); the no-learning resolver's flipped decision carries a reason that "
-         'covers every earlier decision level, evaluated with symbolic levels (A14). Also runs the '
-         'LIFE-CYCLE BUNDLE (…L<n>): the typestate rules over arbitrary API sequences of C10 (usable '
-         'root state after every call, inert posting in inconsistent states, entry guards, stored-'
-         'solution extent). Does not decide that a core is logically a core')
+         'covers every earlier decision level, evaluated with symbolic levels (A14). The public API '
+         'forwards assumptions unchanged to the engine (A17). Also runs the LIFE-CYCLE BUNDLE (…L<n>):'
+         ' the typestate rules over arbitrary API sequences of C10 (usable root state after every '
+         'call, inert posting in inconsistent states, entry guards, stored-solution extent). Does not '
+         'decide that a core is logically a core')
 TECHNIQUE = "static analysis: dominance / who-may-call / taint / typestate over rustc MIR"
 
 GUARD = "UnsatisfiableUnderAssumptions"
